@@ -52,6 +52,51 @@ func runC02(c *Ctx) {
 		if ps == nil {
 			return
 		}
+		// an explicit panic for a missing child that the code is about to dereference anyway (rotating around a pivot
+		// that is not there) is the nil dereference with a better message: not a path of its own
+		var rest []*Path
+		var pivot *types.Var
+		var pivotTerm *Term
+		for _, p := range ps {
+			if p.End == EndPanic && len(p.Conds) == 1 && len(p.Events) == 0 {
+				r := p.Conds[0].Rel()
+				if r.B != nil && r.Op == "==" && r.B.IsNil() && (isFieldLoad(r.A, a.nLeft, paramOf(fi, 0)) || isFieldLoad(r.A, a.nRight, paramOf(fi, 0))) {
+					pivot = a.nLeft
+					if isFieldLoad(r.A, a.nRight, paramOf(fi, 0)) {
+						pivot = a.nRight
+					}
+					pivotTerm = r.A
+					continue
+				}
+			}
+			rest = append(rest, p)
+		}
+		// every remaining path writes a field OF that child (the rotation re-links the pivot): it dereferences the child
+		// whatever else it decides, so without the guard it would have panicked on nil just the same
+		if pivot != nil {
+			for _, p := range rest {
+				writes := false
+				for i := range p.Events {
+					e := &p.Events[i]
+					if e.Kind == "store" && e.Addr.Op == "faddr" {
+						b := e.Addr.Args[0]
+						ofCopy := b.Op == "field" && sameField(b.Obj, pivot) && len(b.Args) == 1 && b.Args[0].Op == "load" && b.Args[0].Args[0].Key() == paramOf(fi, 0).Key()
+						if ofCopy || isFieldLoad(b, pivot, paramOf(fi, 0)) || b.ContainsKey(pivotTerm.Key()) {
+							writes = true
+						}
+					}
+				}
+				if !writes {
+					rest = nil
+					break
+				}
+			}
+		}
+		// (only for straight-line functions - the rotations: what remains is a single path that dereferences the child
+		// without any test, so the guard adds no case of its own)
+		if pivot != nil && len(rest) > 0 {
+			ps = rest
+		}
 		paths[fi] = ps
 	}
 	isChildAddr := func(t *Term) bool { return isFieldAddr(t, a.nLeft, nil) || isFieldAddr(t, a.nRight, nil) }
